@@ -189,3 +189,50 @@ def register_leb_layouts():
 
 
 register_leb_layouts()
+
+
+def register_dwarf_layouts():
+    from specs.dwarf_layouts import layouts as dl
+    L32, F32, P32, T32 = dl(True, 32, 8, 5)
+    L64, F64, P64, T64 = dl(True, 64, 8, 5)
+
+    def shape_of(nf):
+        if nf[0] == 'initial_length':
+            return S.Nat
+        if nf[0] == 'ifthenelse':
+            return S.Any
+        if nf[0] == 'until' or nf[0] == 'prefixed':
+            return S.Any
+        return nf_shape(nf)
+    for name in L32:
+        a = L64[name]
+        if a[0] != 'struct':
+            continue
+        fields = {}
+        for n, sub in a[1]:
+            if n is None or n == '<embed>' or sub[0] == 'pad':
+                continue
+            fields[n] = shape_of(sub)
+        if name not in LAYOUTS:
+            register_layout(Layout(name, fields, size=None, minsize=0, nf=None))
+    fixed = {'Dwarf_uint8': (1, S.U8), 'Dwarf_uint16': (2, S.U16), 'Dwarf_uint24': (3, S.U(24)), 'Dwarf_uint32': (4, S.U32),
+             'Dwarf_uint64': (8, S.U64), 'Dwarf_int8': (1, S.S(8)), 'Dwarf_int16': (2, S.S(16)), 'Dwarf_int32': (4, S.S(32)),
+             'Dwarf_int64': (8, S.S(64)), 'the_Dwarf_uint8': (1, S.U8), 'the_Dwarf_uint16': (2, S.U16),
+             'the_Dwarf_uint32': (4, S.U32)}
+    for n, (sz, sh) in fixed.items():
+        base = n.replace('the_', '')
+        lay = Layout(base, sh, size=sz)
+        LAYOUTS[n] = lay
+    for n, attr, a, b in (('Dwarf_offset', 'dwarf_format', 32, 4), ('Dwarf_length', 'dwarf_format', 32, 4),
+                          ('Dwarf_target_addr', 'address_size', 4, 4)):
+        def size(owner, attr=attr, a=a):
+            v = owner.attrs[attr]
+            if isinstance(v, int):
+                return 4 if v == a else 8
+            return z3.If(v == a, 4, 8)
+        lay = Layout(n, S.U64, size=size)
+        LAYOUTS[n] = lay
+        LAYOUTS['the_' + n] = lay
+
+
+register_dwarf_layouts()
